@@ -26,14 +26,16 @@ def _packetize(b, kind):
     return [b]
 
 
-def _session(ctx, w, st, tag, stop_on_error):
+def _session(ctx, w, st, tag, stop_on_error, scenario=None, after_connect=None):
     """run connect + scenario; returns list of (op, expected, outcome); stops at the first exception if asked"""
     out = []
     o = w.try_call('connect')
     out.append(('connect', None, o))
     if not o.ok:
         return out
-    for k, spec in enumerate(SCENARIO):
+    if after_connect is not None:
+        after_connect()
+    for k, spec in enumerate(scenario or SCENARIO):
         op = ops.make(spec)
         exp = op.setup(ctx, st, w, k + (10 if tag == 'second' else 0))
         o = op.run(w)
@@ -103,7 +105,8 @@ def h_fault(ctx, mods, shape):
     w = World(ctx, mods, st.dev, impl=impl, default_timeout=1, fault=fault, budget=3000)
     if shape.get('preload'):
         pass
-    res = _session(ctx, w, st, 'first', True)
+    scenario = shape.get('scenario')
+    res = _session(ctx, w, st, 'first', True, scenario=scenario)
     ctx.observe('first', [o.kind() for _, _, o in res])
     faulted = [x for x in res if not x[2].ok]
     # 1. the faulted operation either raised, or (if everything returned) every result is correct
@@ -130,7 +133,18 @@ def h_fault(ctx, mods, shape):
     # 4. reconnect to a healthy device and replay the scenario with fresh payloads
     st2 = Std(ctx, sym_rid=True, packetize=_packetize)
     w.wire.device = st2.dev
-    res2 = _session(ctx, w, st2, 'second', False)
+    after = None
+    if shape.get('stale'):
+        # packets of the broken session that were still in flight show up on the new connection right after its CNXN
+        # (e.g. data left in USB endpoint buffers): they must not be mistaken for packets of the new session
+        old = [(s_.rid, s_.lid) for s_ in st.dev.all_streams][-2:]
+
+        def after():
+            for (rid, lid) in old:
+                st2.dev.inject(sim.frame(b'OKAY', rid, lid))
+                st2.dev.inject(sim.frame(b'WRTE', rid, lid, ctx.bytes('stale', 2)))
+                st2.dev.inject(sim.frame(b'CLSE', rid, lid))
+    res2 = _session(ctx, w, st2, 'second', False, scenario=scenario, after_connect=after)
     ctx.observe('second', [o.kind() for _, _, o in res2])
     for op, exp, o in res2:
         name = op if op == 'connect' else op.name
@@ -142,7 +156,50 @@ def h_fault(ctx, mods, shape):
     st2.dev.decoder.finish()
 
 
-HARNESSES = {'fault': h_fault}
+def h_reconnect_dirty(ctx, mods, shape):
+    """connect() again on a live object (no close()) while the packet store still holds packets: the new session starts clean"""
+    st = Std(ctx, sym_rid=True)
+    w = World(ctx, mods, st.dev, impl=shape['impl'], default_timeout=1)
+    o = w.try_call('connect')
+    next_lid = 2
+    # while a shell command runs, the device also sends packets for other ids: a stray OKAY for the id the NEXT stream will
+    # get, and a WRTE for a stream that does not exist; both are parked in the packet store
+    orig_emit = st.dev._emit
+    state = {'n': 0}
+
+    def emit(cmd, a0, a1, payload, stream, tag_):
+        orig_emit(cmd, a0, a1, payload, stream, tag_)
+        state['n'] += 1
+        if state['n'] == 2 and shape.get('stray', True):
+            st.dev.inject(sim.frame(b'OKAY', ctx.int('stray_rid', 1, 2 ** 32 - 1), next_lid))
+            st.dev.inject(sim.frame(b'WRTE', ctx.int('stray_rid', 1, 2 ** 32 - 1), next_lid + 5, ctx.bytes('junk', 2)))
+    st.dev._emit = emit
+    op1 = ops.make('shell')
+    e1 = op1.setup(ctx, st, w, 0)
+    o1 = op1.run(w)
+    ctx.observe('first', o1.kind())
+    if not o1.ok:
+        ctx.fail('shell raised %s' % o1.kind(), detail=repr(o1.exc))
+        return
+    st.dev._emit = orig_emit
+    if shape.get('close'):
+        w.try_call('close')
+    st2 = Std(ctx, sym_rid=True)
+    w.wire.device = st2.dev
+    o = w.try_call('connect')
+    ctx.check(o.ok, 'connect() on a live object succeeds', detail=repr(o))
+    for k, spec in enumerate(['shell', 'stat', 'shell']):
+        op = ops.make(spec)
+        exp = op.setup(ctx, st2, w, 10 + k)
+        r = op.run(w)
+        ctx.observe('second %d' % k, r.kind())
+        if not r.ok:
+            ctx.fail('after connect() on a live object, %s raised %s (state of the previous session leaked)' % (op.name, r.kind()), detail=repr(r.exc))
+            return
+        op.check(ctx, w, st2, r, exp, 'after reconnect, %s: ' % op.name)
+
+
+HARNESSES = {'fault': h_fault, 'reconnect_dirty': h_reconnect_dirty}
 
 
 def shapes(tier, seed):
@@ -159,4 +216,12 @@ def shapes(tier, seed):
                 out.append({'h': 'fault', 'impl': impl, 'kind': kind, 'range': [lo, min(n, lo + step)]})
                 if not q:
                     out.append({'h': 'fault', 'impl': impl, 'kind': kind, 'range': [lo, min(n, lo + step)], 'second_within': 6})
+            # stale packets of the broken session arrive on the new connection
+            for lo in range(8, n, 24):
+                out.append({'h': 'fault', 'impl': impl, 'kind': kind, 'range': [lo, min(n, lo + 4)], 'stale': True})
+        # a shell command whose 24-byte output could itself be read as a packet header: a fault must never turn it into a result
+        for kind in ('timeout', 'reset'):
+            out.append({'h': 'fault', 'impl': impl, 'kind': kind, 'range': [4, 14], 'scenario': [['shell', {'lens': [24]}]]})
+        for close in (False, True):
+            out.append({'h': 'reconnect_dirty', 'impl': impl, 'close': close})
     return out
